@@ -1177,6 +1177,19 @@ fn stress_race(d: &Driver, threads: usize, secs: u64) -> Value {
         .filter(|r| r.outcome == "ok" && ((r.method == "brc20_balance") || ((r.method == "eth_call" || r.method == "eth_estimateGas") && r.params.as_array().map(|a| a.len() == 1).unwrap_or(false))))
         .map(|r| (r.method.clone(), r.params.clone())).collect());
     if reads.is_empty() { return json!({"skipped": "no block-less read request in the drive"}); }
+    // the same calls with a MOVING block tag: the block they name changes while they run
+    let reads: Arc<Vec<(String, Value)>> = Arc::new({
+        let mut v: Vec<(String, Value)> = (*reads).clone();
+        for (m, p) in reads.iter() {
+            if m == "brc20_balance" { continue; }
+            for tag in ["latest", "pending"] {
+                let mut q = p.as_array().cloned().unwrap_or_default();
+                q.push(json!(tag));
+                v.push((m.clone(), Value::Array(q)));
+            }
+        }
+        v
+    });
     let stop = Arc::new(AtomicBool::new(false));
     let done = Arc::new(AtomicU64::new(0));
     let mined = Arc::new(AtomicU64::new(0));
